@@ -202,16 +202,19 @@ CONC = Stage(
     reset_ev="Start",
     mc={"quick": [("Conc.tla", "MC_Conc.cfg", "pass"), ("Conc.tla", "MC_Conc_static.cfg", "pass"),
                   ("Conc.tla", "MC_Conc_neg.cfg", "fail"), ("Conc.tla", "MC_Conc_neg_residue.cfg", "fail"),
-                  ("Conc.tla", "MC_Conc_neg_lazy.cfg", "fail")],
+                  ("Conc.tla", "MC_Conc_neg_lazy.cfg", "fail"), ("Refine_Conc.tla", "MC_Conc_refine.cfg", "pass")],
         "thorough": [("Conc.tla", "MC_Conc_t.cfg", "pass"), ("Conc.tla", "MC_Conc_static.cfg", "pass"),
                      ("Conc.tla", "MC_Conc_neg.cfg", "fail"), ("Conc.tla", "MC_Conc_neg_residue.cfg", "fail"),
-                     ("Conc.tla", "MC_Conc_neg_lazy.cfg", "fail")]},
+                     ("Conc.tla", "MC_Conc_neg_lazy.cfg", "fail"), ("Refine_Conc.tla", "MC_Conc_refine.cfg", "pass")]},
     parts={"quick": [("", 2)], "thorough": [("", 4)]},
     trace=("Trace_Conc.tla", "Trace_Conc.cfg"),
     nontrivial=lambda e: e.get("ev") in ("Par", "End", "Pool"),
     race=True,
     driver_env="RACELOG",
 )
+
+CONC.apalache = {"quick": [("Pool.tla", "ConstInit", "IndInv", "pass")],
+                 "thorough": [("Pool.tla", "ConstInit", "IndInv", "pass"), ("Pool.tla", "ConstInitNeg", "IndInv", "fail")]}
 
 GATEWAY = Stage(
     family="gateway",
